@@ -280,22 +280,27 @@ def h_orig_bam(ex, prop, L, interval=None, pdu2=True, eps_sym=True):
     ex.witness()
 
 
-def h_orig_bam_busy(ex, prop, L=29, burst=12, tx='1/1000', interval=None, dll='j1939-21'):
+def h_orig_bam_busy(ex, prop, L=29, burst=12, tx='1/1000', interval=None, dll='j1939-21', first='cmdt', cmdt_interval=None):
     """BAM pacing while the same job thread has other work that takes time.  Every send call of a job pass takes `tx`
     (bus time of a frame; world.tx_time).  An RTS/CTS transfer to the peer is opened BEFORE the broadcast; the peer's CTS
     for the whole message arrives at a symbolic instant around the first BAM deadline, so the burst and a BAM packet can
     fall into one job pass.  Claim: consecutive BAM packets are still at least the configured interval apart."""
-    w, n, ca, rx = mk_world(ex, 255, bam_interval=interval)
+    w, n, ca, rx = mk_world(ex, 255, bam_interval=interval, rts_cts_interval=cmdt_interval)
     w.tx_time = Fraction(tx)
     ivl = Fraction(interval) if interval is not None else Fraction(1, 20)
     npk = tp21.npackets(L)
     payload = sym_payload(ex, 'b', L)
     w.run(until=T('1/100'))
     pgn_p2p = 0xD000
-    ex.claim('accepted', ca.send_pgn(0, 0xD0, P_ADDR, 6, [(3 * j) % 256 for j in range(burst * 7)]) is True)
+    # first = 'bam': the broadcast is opened before the RTS/CTS transfer, so in a pass in which both are due the BAM
+    # packet is sent first and the paced RTS/CTS packet (cmdt_interval) follows it
+    if first == 'cmdt':
+        ex.claim('accepted', ca.send_pgn(0, 0xD0, P_ADDR, 6, [(3 * j) % 256 for j in range(burst * 7)]) is True)
     t_bam = w.now
     ex.claim('accepted', ca.send_pgn(0, 0xFE, 0x10, 6, list(payload)) is True)
-    st = {'dts': 0, 'acked': False}
+    if first != 'cmdt':
+        ex.claim('accepted', ca.send_pgn(0, 0xD0, P_ADDR, 6, [(3 * j) % 256 for j in range(burst * 7)]) is True)
+    st = {'dts': 0, 'acked': False, 'p2p_t': []}
 
     def on_frame(f):
         if f['src'] != 'S':
@@ -303,6 +308,7 @@ def h_orig_bam_busy(ex, prop, L=29, burst=12, tx='1/1000', interval=None, dll='j
         fld = ids.id_fields(f['id'])
         if bool(fld['pf'] == tp21.PF_DT) and bool(fld['ps'] == P_ADDR):
             st['dts'] += 1
+            st['p2p_t'].append(f['t'])
             if st['dts'] == burst and not st['acked']:
                 st['acked'] = True
                 w.after(T('1/200'), lambda: w.inject(n, tp21.can_id(7, tp21.PF_CM, S_ADDR, P_ADDR), tp21.eoma(burst * 7, pgn_p2p)), 'peer')
@@ -315,6 +321,9 @@ def h_orig_bam_busy(ex, prop, L=29, burst=12, tx='1/1000', interval=None, dll='j
     ex.claim('c09.bam_busy.frame_count', len(bam) == npk + 1 and st['dts'] == burst, {'bam_frames': len(bam), 'npk': npk, 'burst_packets': st['dts']})
     for a, b in zip(bam, bam[1:]):
         ex.claim('c09.bam_busy.min_spacing', b['t'] - a['t'] >= ivl, {'interval': str(ivl), 'burst': burst, 'tx': tx})
+    if cmdt_interval is not None:
+        for a, b in zip(st['p2p_t'], st['p2p_t'][1:]):
+            ex.claim('c09.bam_busy.cmdt_min_interval', b - a >= Fraction(cmdt_interval), {'interval': cmdt_interval, 'first': first, 'tx': tx})
     ex.claim('job_thread_alive', n.job_alive())
     ex.observe('bus', [[f['src'], f['id'], f['t']] for f in w.log])
     ex.witness()
